@@ -52,6 +52,22 @@ def check(run):
                                                  'DRV.early', 'DRV.iter', 'SEQ.len'))
         for nm in drivers.TO_FNS + drivers.ITER_FNS:
             claimed.add(('tea-core/src/vec_core/cores/view.rs', nm))
+        if cfg == 'base':
+            # a trusted consumer allocates the announced length and exposes exactly that many slots:
+            # every `to_trust(len)` declaration site must announce the number of items really yielded
+            import C09 as _C09
+            import lag as _lag
+            import seqrules as _sq
+            for r_, t_ in _sq.RULES.items():
+                run.rule(r_, t_)
+            _lag.check_lag(run, F, rules=('SEQ.len', 'SEQ.ret-len', 'SEQ.underflow'))
+            for name_, _c in _C09.SEQ_FNS:
+                fn_ = F.one(name_)
+                ev_ = _sq.run_eval(fn_)
+                _sq.check_len_sites(run, fn_, ev_)
+                ksym_ = _sq.param_sym(fn_, 'kth')
+                _sq.check_ret_len(run, fn_, ev_, lambda W, k=ksym_: {k: 1, 1: 1}, 'k + 1')
+            _C09.other_sites(run, F)
         backends.check_fast_paths(run, F)
         from C07 import head_of
         backends.check_writes(run, F, head_of)
